@@ -8,6 +8,7 @@ import (
 	"net/netip"
 	"sort"
 	"strconv"
+	"strings"
 
 	"verifharness/vh"
 )
@@ -30,6 +31,7 @@ type pshape struct {
 	Itype int    `json:"itype"`
 	Hlen  int    `json:"hlen"`
 	Plen  int    `json:"plen"`
+	App   string `json:"app"`
 }
 
 type outcome struct {
@@ -62,6 +64,15 @@ type rawf struct {
 	Off int   `json:"off"`
 	B   []int `json:"b"`
 }
+type mapf struct {
+	G     string `json:"g"`
+	Items []struct {
+		K  int `json:"k"`
+		Lo int `json:"lo"`
+		Hi int `json:"hi"`
+	} `json:"items"`
+}
+
 type listf struct {
 	G     string `json:"g"`
 	Items []struct {
@@ -80,6 +91,7 @@ type vshape struct {
 	Absent []string `json:"absent"`
 	Nums   []setf   `json:"nums"`
 	Lists  []listf  `json:"lists"`
+	Maps   []mapf   `json:"maps"`
 }
 
 type fvec struct {
@@ -239,6 +251,10 @@ func buildFrame(s *pshape, rng *rand.Rand, u *vh.Universe, wellFormed bool) []by
 	f.put(6, sm...)
 	f.put16(12, s.Etype)
 	free := !wellFormed && rng.Intn(4) == 0 // now and then leave the unvalidated bytes random
+	if strings.HasPrefix(s.App, "inner-") {
+		innerPacket(f, s, rng, u)
+		return f.b
+	}
 	switch s.Path {
 	case "ip4":
 		o := 14
@@ -289,6 +305,62 @@ func buildFrame(s *pshape, rng *rand.Rand, u *vh.Universe, wellFormed bool) []by
 	return f.b
 }
 
+// innerPacket writes, after the 802.1Q / 802.1ad tag(s), the inner EtherType and a complete
+// well-formed packet of that type from a LAN client (the package must not decode it).
+func innerPacket(f *frameBuilder, s *pshape, rng *rand.Rand, u *vh.Universe) {
+	o := 18 // payload after one tag
+	if s.Etype == 0x88a8 {
+		o = 22
+		f.put16(16, 0x8100) // inner tag
+	}
+	n := len(f.b) - o
+	if n < 0 {
+		n = 0
+	}
+	switch s.App {
+	case "inner-ip4":
+		f.put16(o-2, 0x0800)
+		f.put(o, 0x45, 0)
+		f.put16(o+2, n)
+		f.put(o+6, 0, 0, 64, 17)
+		ip := srcIP("lan", rng, u).As4()
+		f.put(o+12, ip[:]...)
+		f.put16(o+20, 68)
+		f.put16(o+22, 67)
+		f.put16(o+24, n-20)
+	case "inner-ip6":
+		f.put16(o-2, 0x86dd)
+		f.put(o, 0x60, 0, 0, 0)
+		f.put16(o+4, n-40)
+		f.put(o+6, 17, 255)
+		ip := srcIP("lla", rng, u).As16()
+		f.put(o+8, ip[:]...)
+		f.put16(o+40, 5353)
+		f.put16(o+42, 5353)
+	case "inner-arp":
+		f.put16(o-2, 0x0806)
+		f.put16(o, 1)
+		f.put16(o+2, 0x0800)
+		f.put(o+4, 6, 4, 0, 1)
+		f.put(o+8, f.b[6:12]...)
+		ip := srcIP("lan", rng, u).As4()
+		f.put(o+14, ip[:]...)
+	}
+}
+
+// appPayload writes structured application content behind the UDP header.
+func appPayload(f *frameBuilder, s *pshape, o int, rng *rand.Rand) {
+	switch s.App {
+	case "dhcp4":
+		f.put(o, byte(1+rng.Intn(2)), 1, 6, 0)
+		f.put(o+236, 99, 130, 83, 99)
+		f.put(o+240, 53, 1, byte(1+rng.Intn(8)), 255)
+		for i := o + 244; i < len(f.b); i++ {
+			f.b[i] = 0
+		}
+	}
+}
+
 func l4(f *frameBuilder, s *pshape, o int, rng *rand.Rand, free bool) {
 	switch s.Proto {
 	case 17:
@@ -297,6 +369,7 @@ func l4(f *frameBuilder, s *pshape, o int, rng *rand.Rand, free bool) {
 		if !free {
 			f.put16(o+4, len(f.b)-o)
 		}
+		appPayload(f, s, o+8, rng)
 	case 6:
 		f.put16(o, s.Sport)
 		f.put16(o+2, s.Dport)
